@@ -109,6 +109,8 @@ def scan(source: str, callback: callable):
                 # Now we know that value that looks like property name-value pair
                 # was actually a selector
                 state.start = state.property_start
+                if state.end == -1:
+                    state.end = state.property_delimiter + 1
 
             if notify(TokenType.Selector):
                 return
